@@ -154,6 +154,12 @@ type State struct {
 	steps  int
 	// copy-in/copy-out records for interior pointers materialised as cells
 	trail []string // human-readable branch trail
+	// private: references allocated on this path that have not escaped (never
+	// stored into non-private memory, never passed to a call). No callee can
+	// reach them, so their contents survive calls that forget the heap.
+	private  map[string]bool
+	alias    map[string][]string // named constant -> private refs it mentions
+	contains map[string][]string // private container -> private refs stored in it
 }
 
 func (st *State) Fork() *State {
@@ -167,7 +173,92 @@ func (st *State) Fork() *State {
 	// LVals pointing at frames must be re-targeted lazily: they keep Alloc
 	// identity and are resolved through the frame chain by function identity.
 	n.trail = append([]string(nil), st.trail...)
+	n.private = make(map[string]bool, len(st.private))
+	for k := range st.private {
+		n.private[k] = true
+	}
+	n.alias = make(map[string][]string, len(st.alias))
+	for k, v := range st.alias {
+		n.alias[k] = v
+	}
+	n.contains = make(map[string][]string, len(st.contains))
+	for k, v := range st.contains {
+		n.contains[k] = v
+	}
 	return n
+}
+
+// refsIn returns the private references mentioned (directly or through named
+// constants) by a term.
+func (st *State) refsIn(t string) []string {
+	if len(st.private) == 0 && len(st.alias) == 0 {
+		return nil
+	}
+	var out []string
+	seen := map[string]bool{}
+	i := 0
+	for i < len(t) {
+		c := t[i]
+		if c == '(' || c == ')' || c == ' ' {
+			i++
+			continue
+		}
+		j := i
+		for j < len(t) && t[j] != '(' && t[j] != ')' && t[j] != ' ' {
+			j++
+		}
+		tok := t[i:j]
+		i = j
+		if st.private[tok] && !seen[tok] {
+			seen[tok] = true
+			out = append(out, tok)
+		}
+		for _, r := range st.alias[tok] {
+			if st.private[r] && !seen[r] {
+				seen[r] = true
+				out = append(out, r)
+			}
+		}
+	}
+	return out
+}
+
+// escape marks every private reference mentioned by t (and, transitively,
+// everything stored in those objects) as reachable by other code.
+func (st *State) escape(t string) {
+	for _, r := range st.refsIn(t) {
+		st.escapeRef(r)
+	}
+}
+
+func (st *State) escapeRef(r string) {
+	if !st.private[r] {
+		return
+	}
+	delete(st.private, r)
+	for _, c := range st.contains[r] {
+		st.escapeRef(c)
+	}
+}
+
+// storedInto records that value v was stored into the object with root
+// reference root: into a private container it stays private, otherwise it escapes.
+func (st *State) storedInto(root string, v string) {
+	refs := st.refsIn(v)
+	if len(refs) == 0 {
+		return
+	}
+	owners := st.refsIn(root)
+	if len(owners) == 1 && st.private[owners[0]] && root == owners[0] {
+		if st.contains == nil {
+			st.contains = map[string][]string{}
+		}
+		st.contains[owners[0]] = append(append([]string(nil), st.contains[owners[0]]...), refs...)
+		return
+	}
+	for _, r := range refs {
+		st.escapeRef(r)
+	}
 }
 
 func (st *State) Snap() *Snapshot {
@@ -191,6 +282,8 @@ func compGlobal(g *ssa.Global) string { return "G:" + shortPkg(g.Pkg.Pkg.Path(),
 // compSort derives the SMT sort of a heap component from its name; component
 // sorts are recorded on first use.
 type epochInfo struct {
+	privRefs []string   // references private to the path when the epoch began: contents preserved
+	privFrom *Snapshot  // the heap they are preserved from
 	parent   *Snapshot  // nil: nothing is known about the heap of this epoch
 	as       *assignSet // locations that may differ from the parent (nil: none)
 	alloc    Term
@@ -227,6 +320,15 @@ func (run *FuncRun) compInit(sc *Script, name string, so Sort, epoch int) Term {
 			for _, f := range run.mapVersionFacts(name, t, dom) {
 				decl += "\n" + f
 			}
+		}
+	}
+	if info != nil && info.parent == nil && info.privFrom != nil && len(info.privRefs) > 0 && sc != nil && !strings.HasPrefix(name, "G:") {
+		if sc.declared[cname] {
+			return t
+		}
+		prev := info.privFrom.H(run, sc, name, so)
+		for _, r := range info.privRefs {
+			decl += fmt.Sprintf("\n(assert (= (select %s %s) (select %s %s)))", cname, r, prev.S, r)
 		}
 	}
 	if info == nil || info.parent == nil {
@@ -279,6 +381,12 @@ func (st *State) SetH(name string, val Term) {
 // Name introduces a named constant equal to t.
 func (st *State) Name(prefix string, t Term) Term {
 	c := st.run.freshName(prefix)
+	if refs := st.refsIn(t.S); len(refs) > 0 {
+		if st.alias == nil {
+			st.alias = map[string][]string{}
+		}
+		st.alias[c] = refs
+	}
 	st.script.Add("(declare-const " + c + " " + string(t.Sort) + ")")
 	st.script.Add("(assert (= " + c + " " + t.S + "))")
 	return Term{c, t.Sort}
@@ -314,6 +422,11 @@ func (st *State) newEpochKeeping(parent *Snapshot, as *assignSet, keep func(stri
 	st.script.Declare(name, "(declare-const "+name+" Int)")
 	old := st.alloc
 	info := &epochInfo{parent: parent, as: as, alloc: Term{name, SInt}, preAlloc: old}
+	if parent == nil && len(st.private) > 0 {
+		// an unknown callee cannot reach objects that never left this function
+		info.privRefs = sortedKeys(st.private)
+		info.privFrom = st.Snap()
+	}
 	run.epochInfo[e] = info
 	for k := range st.heap {
 		if strings.HasPrefix(k, "G:") && run.eng.globalIsConst(k) {
@@ -440,6 +553,10 @@ func nilMapFact(comp string, t Term) string {
 func (st *State) NewRef() Term {
 	r := st.Name("r", st.alloc)
 	st.alloc = Add(r, IntLit(1))
+	if st.private == nil {
+		st.private = map[string]bool{}
+	}
+	st.private[r.S] = true
 	return Term{r.S, SRef}
 }
 
